@@ -33,7 +33,7 @@ fn plan(tier: Tier) -> Plan {
             exhaustive: false,
         },
         Tier::Thorough => Plan {
-            cases: 300_000,
+            cases: 3_000_000,
             time_cap_s: 360,
             case_timeout_s: 20,
             exhaustive: false,
